@@ -5,12 +5,9 @@ from pyvc.source import Repo
 
 def run(ctx):
     repo = Repo()
-    try:
-        from contracts import c02_recursion as C
+    from contracts import c02_recursion as C
 
-        C.verify_all(ctx, repo, "C02")
-    except ImportError:
-        pass
+    C.verify_all(ctx, repo, "C02")
     ctx.assume("A-REAL: the deductive obligations are over the reals; every floating-point clause (underflow floor, never-below-exact, finiteness, FFT 1e-6) is bounded-only")
     ctx.trust("M-REC: the recursion R = P*S, S = prefix sums of D, D = iterated truncated convolution equals the flat sum over constrained index assignments (trusted; brute force, bounded)")
     ctx.extra["explanation"] = ("Deductive (real arithmetic): the convolution / prefix-sum / node-update functions equal their recursive specification for any number of samples, "
